@@ -124,7 +124,7 @@ func (t *scoreTr) q(e ast.Expr) string {
 	case *ast.ParenExpr:
 		return t.q(x.X)
 	case *ast.BasicLit:
-		s, ok := litQ(x)
+		s, ok := mcpLitQ(x)
 		if !ok {
 			return t.err("literal %s", x.Value)
 		}
@@ -179,7 +179,7 @@ func (t *scoreTr) zOfQ(e ast.Expr) string {
 		}
 	case *ast.BasicLit:
 		if x.Kind == token.INT {
-			s, _ := litZ(x)
+			s, _ := mcpLitZ(x)
 			return s
 		}
 	}
@@ -191,7 +191,7 @@ func (t *scoreTr) z(e ast.Expr) string {
 	case *ast.ParenExpr:
 		return t.z(x.X)
 	case *ast.BasicLit:
-		s, ok := litZ(x)
+		s, ok := mcpLitZ(x)
 		if !ok {
 			return t.err("int literal %s", x.Value)
 		}
